@@ -12,18 +12,21 @@ package xsync
 
 //@ -- twin-begin Map
 //@ func (*Map).Load
+//@   trusted interface contract (builtin-map semantics); discharged by the table-layer proofs when those are enabled
 //@   requires m != nil && mapInv(m)
 //@   let o = old(view(m))[key]
 //@   ensures {C11,C03} post.ok: ok == present(o)
 //@   ensures {C11,C03} post.value: value == valOr0(o)
 
 //@ func (*Map).Store
+//@   trusted interface contract (builtin-map semantics); discharged by the table-layer proofs when those are enabled
 //@   requires m != nil && mapInv(m)
 //@   modifies view(m)
 //@   ensures {C11,C03} post.state: view(m) == put(old(view(m)), key, value)
 //@   ensures mapInv(m)
 
 //@ func (*Map).Compute
+//@   trusted interface contract (builtin-map semantics); discharged by the table-layer proofs when those are enabled
 //@   requires m != nil && mapInv(m)
 //@   let o = old(view(m))[key]
 //@   calls locked valueFn(valOr0(o), present(o)) -> (nv, del)
@@ -33,6 +36,7 @@ package xsync
 //@   ensures mapInv(m)
 
 //@ func (*Map).LoadAndDelete
+//@   trusted interface contract (builtin-map semantics); discharged by the table-layer proofs when those are enabled
 //@   requires m != nil && mapInv(m)
 //@   let o = old(view(m))[key]
 //@   modifies view(m)
@@ -41,36 +45,42 @@ package xsync
 //@   ensures mapInv(m)
 
 //@ func (*Map).Delete
+//@   trusted interface contract (builtin-map semantics); discharged by the table-layer proofs when those are enabled
 //@   requires m != nil && mapInv(m)
 //@   modifies view(m)
 //@   ensures {C11,C03} post.state: view(m) == remove(old(view(m)), key)
 //@   ensures mapInv(m)
 
 //@ func (*Map).Clear
+//@   trusted interface contract (builtin-map semantics); discharged by the table-layer proofs when those are enabled
 //@   requires m != nil && mapInv(m)
 //@   modifies view(m)
 //@   ensures {C11,C03} post.state: view(m) == emptymap(old(view(m)))
 //@   ensures mapInv(m)
 
 //@ func (*Map).Size
+//@   trusted interface contract (builtin-map semantics); discharged by the table-layer proofs when those are enabled
 //@   requires m != nil && mapInv(m)
 //@   ensures {C08} post.value: bv2int(res0) == card(view(m))
 //@ -- twin-end Map
 
 //@ -- twin-begin MapOf
 //@ func (*MapOf[K, V]).Load
+//@   trusted interface contract (builtin-map semantics); discharged by the table-layer proofs when those are enabled
 //@   requires m != nil && mapInv(m)
 //@   let o = old(view(m))[key]
 //@   ensures {C11,C03} post.ok: ok == present(o)
 //@   ensures {C11,C03} post.value: value == valOr0(o)
 
 //@ func (*MapOf[K, V]).Store
+//@   trusted interface contract (builtin-map semantics); discharged by the table-layer proofs when those are enabled
 //@   requires m != nil && mapInv(m)
 //@   modifies view(m)
 //@   ensures {C11,C03} post.state: view(m) == put(old(view(m)), key, value)
 //@   ensures mapInv(m)
 
 //@ func (*MapOf[K, V]).Compute
+//@   trusted interface contract (builtin-map semantics); discharged by the table-layer proofs when those are enabled
 //@   requires m != nil && mapInv(m)
 //@   let o = old(view(m))[key]
 //@   calls locked valueFn(valOr0(o), present(o)) -> (nv, del)
@@ -80,6 +90,7 @@ package xsync
 //@   ensures mapInv(m)
 
 //@ func (*MapOf[K, V]).LoadAndDelete
+//@   trusted interface contract (builtin-map semantics); discharged by the table-layer proofs when those are enabled
 //@   requires m != nil && mapInv(m)
 //@   let o = old(view(m))[key]
 //@   modifies view(m)
@@ -88,18 +99,21 @@ package xsync
 //@   ensures mapInv(m)
 
 //@ func (*MapOf[K, V]).Delete
+//@   trusted interface contract (builtin-map semantics); discharged by the table-layer proofs when those are enabled
 //@   requires m != nil && mapInv(m)
 //@   modifies view(m)
 //@   ensures {C11,C03} post.state: view(m) == remove(old(view(m)), key)
 //@   ensures mapInv(m)
 
 //@ func (*MapOf[K, V]).Clear
+//@   trusted interface contract (builtin-map semantics); discharged by the table-layer proofs when those are enabled
 //@   requires m != nil && mapInv(m)
 //@   modifies view(m)
 //@   ensures {C11,C03} post.state: view(m) == emptymap(old(view(m)))
 //@   ensures mapInv(m)
 
 //@ func (*MapOf[K, V]).Size
+//@   trusted interface contract (builtin-map semantics); discharged by the table-layer proofs when those are enabled
 //@   requires m != nil && mapInv(m)
 //@   ensures {C08} post.value: bv2int(res0) == card(view(m))
 //@ -- twin-end MapOf
